@@ -10,7 +10,8 @@
      c10m <name> <cluster> <mode> <a_set> <a_m> <d_set> <d_m> <order> <keyhex> <valuehex>     (second phase of the C10 reader cases: the four
           booleans are what the probe's real regexps answered for the message's group; see checks/c10_wire.py)
    <name> / <cluster>: the consumer module's own name and the cluster it is configured for (hex).
-   <mode>: S = the probe configures the module with viper.Set, T = from a TOML document (no difference for the model).
+   <mode>: S = the probe configures the module with viper.Set, T = from a TOML document; a Z
+           appended = real zap core instead of the nop logger (no difference for the model).
    <allow> / <deny>: 0 = key absent, 1..6 = a pattern of the pool, 7 = key present with the empty string (= no list).
    strings: N = null, - = empty, else hex.  <allow>/<deny> index the pattern pool below (0 = not set).
 
